@@ -335,10 +335,20 @@ func lockedForMinutes() string {
 		if !strings.Contains(head, " minutes]") {
 			continue
 		}
+		body := strings.ReplaceAll(blk, "/internal/verif/", "/VERIF/")
+		if strings.Contains(head, "chan receive") || strings.Contains(head, "chan send") {
+			// a bare channel operation written in fan2go itself (first frame), not a library's or the harness's wait
+			if ls := strings.SplitN(body, "\n", 3); len(ls) > 1 && strings.HasPrefix(ls[1], "github.com/markusressel/fan2go/internal/") {
+				if len(blk) > 1500 {
+					blk = blk[:1500]
+				}
+				return blk
+			}
+			continue
+		}
 		if !(strings.Contains(head, "sync.Mutex.Lock") || strings.Contains(head, "sync.RWMutex") || strings.Contains(head, "semacquire")) {
 			continue
 		}
-		body := strings.ReplaceAll(blk, "/internal/verif/", "/VERIF/")
 		if strings.Contains(body, "markusressel/fan2go/internal/") {
 			if len(blk) > 1500 {
 				blk = blk[:1500]
